@@ -132,7 +132,7 @@ func checkC16(c *Ctx) {
 
 	// G2 kinds.agree
 	c.Rule("G2 kinds.agree: every reflect.Kind that decodeBodyToStruct compares a block field's type with (slice, pointer) is also compared in populateBody: a field shape the decoder fills and the encoder does not recognise is encoded as the wrong thing or panics")
-	dk, ek := kindConsts(decStruct), kindConsts(popBody)
+	dk, ek := kindConstsAll(c.P.expandedFuncs(decStruct)), kindConstsAll(c.P.expandedFuncs(popBody))
 	var dks []int64
 	for k := range dk {
 		dks = append(dks, k)
@@ -345,4 +345,16 @@ func buildsFieldTags(f *ssa.Function) bool {
 		}
 	}
 	return false
+}
+
+func kindConstsAll(fns []*ssa.Function) map[int64]token.Pos {
+	out := map[int64]token.Pos{}
+	for _, f := range fns {
+		for k, pos := range kindConsts(f) {
+			if _, have := out[k]; !have {
+				out[k] = pos
+			}
+		}
+	}
+	return out
 }
